@@ -414,8 +414,11 @@ WALK = Bounded(
     "interleaving of client actions (new / cancel / replace) and exchange actions (ack, reject, partial / full fill, "
     "cancel, replace, reject of a request, expire, suspend / resume) up to 10 (thorough: 13) events exhaustively, then "
     "seeded random walks; fractional price / quantity (0.1+0.2, 10/3), fractional fills, exact comparison; "
-    "at every step K1, request building when permitted, ClOrdID freshness and OrigClOrdID = live id, at quiescence "
-    "status / quantities / price equal the exchange's")
+    "at every step K1, request building when permitted, ClOrdID freshness (the j-th request carries root--j) and "
+    "OrigClOrdID = live id, at quiescence status / quantities / price equal the exchange's; plus one scripted life "
+    "(new, rejected cancel, replace, partial fill, cancel) for each of 10 roots that contain the chaining marker "
+    "without ending in it ('desk--7a', 'my--test--order', '2026--09--23T-x', 'x--', non-ASCII ...): the bounded "
+    "stand-in for A-ROOT (clord_root, a regular expression with groups, is used by contract in the proof)")
 
 PROPERTY = Property(
     "C17", TASKS,
